@@ -162,6 +162,19 @@ def gen(rng, idx, tier):
         filters = ["PropagateAnchorsFilter"]
     if stratum == "default" and kern == "aligned" and rng.random() < 0.3:
         categories_with_mark_kerning(rng, ds)
+    if stratum == "default" and not varfea and len(ds["ufos"]) >= 2 and rng.random() < 0.015:
+        # dedicated stratum of a listed finding: two caret anchors of one glyph coincide in one
+        # non-default master only
+        tgt = rng.choice([g["name"] for g in ds["ufos"][0]["glyphs"] if g["name"] != ".notdef"])
+        k = rng.randrange(1, len(ds["ufos"]))
+        for ui, u in enumerate(ds["ufos"]):
+            for gl in [u["glyphs"]] + list((u.get("layers") or {}).values()):
+                for g in gl:
+                    if g["name"] == tgt:
+                        g["anchors"] = [a for a in g["anchors"] if not a["name"].startswith("caret_")] + [
+                            {"name": "caret_1", "x": 200 + 10 * ui, "y": 0},
+                            {"name": "caret_2", "x": (200 if ui == k else 300) + 10 * ui, "y": 0}]
+        stratum = "carets_coincide_in_one_master"
     return {"stratum": stratum, "ds": ds, "func": func, "variableFeatures": varfea,
             "filters": filters, "lib": rng.choice(["defcon", "ufoLib2"])}
 
@@ -485,6 +498,11 @@ def classify(v, case):
         tr = det.get("trace", "")
         if "varLib/merger.py" in tr and "GPOS" in tr:
             return "merge_path_fails_on_structurally_different_master_gpos"
+        if "varLib/merger.py" in tr and "GDEF.table.LigCaretList" in tr and ".CaretCount" in tr:
+            # ligature carets are collected in a set per master (ufo2ft's GDEF writer, then
+            # feaLib): two caret anchors that coincide in ONE master give that master fewer
+            # carets than the others and the master GDEFs cannot be merged
+            return "merge_path_fails_on_carets_coinciding_in_one_master"
     if v["mech"] == "unexpected_exception" and case["variableFeatures"] and case.get("filters"):
         tr = det.get("trace", "")
         if "_getAnchor" in tr and "cannot unpack non-iterable NoneType" in tr:
